@@ -428,7 +428,7 @@ fn main() {
   }
 
   // ---- uniformly random instants x random offsets x random fractions
-  let n_random: u64 = if thorough { 2_000_000 } else { 40_000 };
+  let n_random: u64 = if thorough { 24_000_000 } else { 40_000 };
   for _ in 0..n_random / args.nshards.max(1) {
     let local = rng.range_i64(MIN, MAX);
     let c = Civil::from_unix(local);
@@ -490,7 +490,7 @@ fn main() {
       unix.push(base + d);
     }
   }
-  let n_unix = if thorough { 400_000 } else { 20_000 };
+  let n_unix = if thorough { 6_000_000 } else { 20_000 };
   for _ in 0..n_unix / args.nshards.max(1) {
     unix.push(match rng.below(4) {
       0 => rng.range_i64(MIN - 100_000, MIN + 100_000),
